@@ -226,7 +226,7 @@ def run_check(prop, tier, seed):
         exe = exes[r["_bin"]]
         r["_configs"] = subprocess.run([exe, "--list"], stdout=subprocess.PIPE, text=True).stdout.split("\n")
         nsh = r.get("shards", NSHARDS)
-        for s in range(nsh):
+        for s in range(0 if os.environ.get("VERIF_CORPUS_ONLY") else nsh):
             tasks.append(Task(r, s, nsh, exe, f"{prop}.{tier}.r{ri}.{r['engine']}.{r['flavour']}.s{s}"))
         if r.get("corpus", True):
             for ci, (spec, config) in enumerate(corpus_files(r["engine"], prop)):
